@@ -195,7 +195,7 @@ def make_jobs(tier, seed, build):
     nmax = 3 if tier == "quick" else 4
     for gname in GRAMMARS:
         g = CORPUS[gname]
-        for shape in tok.all_shapes_by_words(nmax, g.decl):
+        for shape in tok.all_shapes_by_words(nmax, g.decl, full_upto=3):
             if True:
                 k = 0
                 for f in shape:
